@@ -159,7 +159,9 @@ static const SysTok kSysToks[] = {
     {"%G", true},  {"%h", false}, {"%I", false}, {"%j", false}, {"%k", false}, {"%l", false},  {"%n", false}, {"%p", false}, {"%r", false},
     {"%R", false}, {"%t", false}, {"%T", false}, {"%V", true},  {"%x", true},  {"%X", false},  {"%y", true},  {"%Ec", true}, {"%EC", true},
     {"%Ex", true}, {"%EX", false}, {"%Ey", true}, {"%EY", true}, {"%Od", false}, {"%Oe", false}, {"%OH", false}, {"%OI", false}, {"%Om", false},
-    {"%OM", false}, {"%OS", false}, {"%Ou", false}, {"%OU", false}, {"%OV", true}, {"%Ow", false}, {"%OW", false}, {"%Oy", true}};
+    {"%OM", false}, {"%OS", false}, {"%Ou", false}, {"%OU", false}, {"%OV", true}, {"%Ow", false}, {"%OW", false}, {"%Oy", true},
+    // glibc flags and widths (passed through to strftime untouched)
+    {"%^a", false}, {"%^B", false}, {"%-d", false}, {"%_H", false}, {"%06j", false}, {"%#p", false}, {"%-I", false}, {"%3M", false}};
 static const int kNumSysToks = sizeof kSysToks / sizeof kSysToks[0];
 inline std::string render_sys(const char* tok, const Fields& f) {
   std::tm t = f.tm();
